@@ -1,7 +1,7 @@
 SPECIFICATION Spec
 CONSTANTS
-  Pool = {"caller", "calls_bad", "ct_good", "ct_bad", "ct_expr", "closure", "use_mono", "use_struct", "loops"}
-  EntryOps = {"caller"}
+  Pool = {"ct_good", "ct_bad", "ct_many", "ct_expr", "use_mono", "loops", "long_names"}
+  EntryOps = {}
   MaxLen = 2
   EmitHist = TRUE
 INVARIANT NoStaleRead
